@@ -260,7 +260,7 @@ func (g *wgen) corrupt(tr *hx.TRef, w hx.Val, label string) (hx.Val, bool) {
 	cands := p.bad
 	if !g.varCh {
 		// literals: also the wrong literal kinds (list / object where a scalar is expected)
-		cands = append(append([]hx.Val{}, cands...), hx.List(hx.I64(1)), hx.Map(hx.KV{Key: "x", V: hx.I64(1)}))
+		cands = append(append([]hx.Val{}, cands...), hx.List(hx.I64(1)), hx.Map(hx.KV{Key: "x", V: hx.I64(1)}), hx.List(), hx.Map(), hx.List(hx.List()))
 	} else {
 		if tr.Name == "Float" || tr.Name == "Int" {
 			cands = append(append([]hx.Val{}, cands...), nan64, inf64)
@@ -727,6 +727,8 @@ type c04Case struct {
 	// Prime: the request is parsed once and resolved with these variable values before it is
 	// resolved - the same parsed Executable - with Vars
 	Prime []hx.KV `json:"prime,omitempty"`
+	// WarmText: a valid request resolved on the same root before the request of the case
+	WarmText string `json:"warm_text,omitempty"`
 	// second argument (always a good literal) to exercise argument ordering
 	ArgT2 *hx.TRef `json:"arg_type2,omitempty"`
 	W2    *hx.Val  `json:"written2,omitempty"`
@@ -777,7 +779,7 @@ func embedVars(t *rapid.T, s *hx.Schema, tr *hx.TRef, w hx.Val, defs *[]string, 
 func genCaseC04(t *rapid.T) *c04Case {
 	c := &c04Case{ArgT: genArgType(t, "T"), Strat: rapid.SampledFrom([]string{"R", "A", "X"}).Draw(t, "strategy")}
 	c.GoInputs = rapid.IntRange(0, 2).Draw(t, "goInputs") == 0
-	c.Channel = rapid.SampledFrom([]string{"literal", "literal", "var", "default", "nested"}).Draw(t, "channel")
+	c.Channel = rapid.SampledFrom([]string{"literal", "literal", "literal", "var", "var", "default", "default", "nested", "nested", "omitted"}).Draw(t, "channel")
 	c.Mode = rapid.SampledFrom([]string{"good", "bad", "bad"}).Draw(t, "mode")
 	s := c04Schema(c.ArgT, nil)
 	g := &wgen{t: t, s: s, varCh: c.Channel == "var"}
@@ -792,6 +794,28 @@ func genCaseC04(t *rapid.T) *c04Case {
 		if p, ok := c04Pools[c.ArgT.Name]; ok && len(p.either) > 0 {
 			w = rapid.SampledFrom(p.either).Draw(t, "eitherV")
 		}
+	}
+	if c.Channel == "omitted" {
+		// the request does not write the argument at all - after the same field was resolved WITH a
+		// good value: by a sibling selection of the same request and / or by an earlier request on the root
+		c.Mode = "good"
+		sib := g.good(c.ArgT, "sibling")
+		for i := 0; sib.IsNil() && i < 3; i++ {
+			sib = g.good(c.ArgT, fmt.Sprintf("sibling%d", i))
+		}
+		c.W = hx.Nil()
+		withArg := "f(a: " + hx.ValueSDL(sib) + ")"
+		switch rapid.IntRange(0, 2).Draw(t, "omitShape") {
+		case 0:
+			c.Text = "query Q { z w: " + withArg + " k: f }"
+		case 1:
+			c.WarmText = "query Q { w: " + withArg + " }"
+			c.Text = "query Q { z k: f }"
+		default:
+			c.WarmText = "query Q { w: " + withArg + " }"
+			c.Text = "query Q { z w: " + withArg + " k: f }"
+		}
+		return c
 	}
 	c.W = w
 	var second string
@@ -908,10 +932,23 @@ func checkC04(c *c04Case) (ds []hx.Discrepancy, verdict string, invoked bool) {
 		verdict = "bad" // does not fit the Go field it is bound to: must be refused, never wrapped
 	}
 	var call *Call
-	for _, cl := range calls {
-		if cl.Key == "k" {
-			cc := cl
+	if c.Strat == "X" {
+		// a Go method does not learn the response key: the invocation for the sibling selection w
+		// (if the request has one) comes first, the one for k after it
+		skip := 0
+		if strings.Contains(c.Text, " w: f(") {
+			skip = 1
+		}
+		if len(calls) > skip {
+			cc := calls[len(calls)-1]
 			call = &cc
+		}
+	} else {
+		for _, cl := range calls {
+			if cl.Key == "k" {
+				cc := cl
+				call = &cc
+			}
 		}
 	}
 	invoked = call != nil
@@ -934,6 +971,12 @@ func checkC04(c *c04Case) (ds []hx.Discrepancy, verdict string, invoked bool) {
 	}
 	got, has := call.HasArgs["a"]
 	got = fromGo(s, got)
+	if c.Channel == "omitted" {
+		if has && got != nil {
+			add("value-invented", "", "the request does not write the argument but the resolver received a=%#v%s", got, ctx())
+		}
+		return
+	}
 	if !has {
 		add("argument-missing", "", "resolver invoked without the written argument a%s", ctx())
 		return
